@@ -24,7 +24,7 @@ import os, re
 from . import common as C
 from . import e2gen as G
 
-PARAM_SECTIONS = ["oracle"]
+PARAM_SECTIONS = ["oracle", "pipeline"]
 MODEL_TARGETS = ["theories/Conc/CommitSeq.vo", "theories/Spec/Machine.vo", "theories/Codec/WalInst.vo", "theories/Lsm/CompactKey.vo"]  # everything driver/Extract.v imports
 TRUSTED = ["the model's fingerprint function is an injective table over the key strings of a script (driver/main.ml fp_of); the crate "
            "uses xxh3_64: agreement is expected unless xxh3_64 collides on a script's keys (soundness theorems hold for any fp)",
@@ -670,6 +670,21 @@ def explore(ctx):
     cov["e2_conflicts_expected"] = cc.get("conflicts_expected", 0)
     cov["distinct_nontrivial"] = len(distinct) + cc.get("distinct_nontrivial", 0)
     cov["known_finding_replays"] = known_replays
+
+    # ---- D: real interleavings (engine E3): overlapping transactions of several threads that all write one key,
+    # scheduled at the yield points of the commit pipeline; oracle = first committer wins, from the recorded trace
+    from . import e3lib as E3
+    rng3 = C.Rng(ctx["seed"] * 9176 + 404)
+    scheds = E3.plan(rng3, quick, [("hot", 240)])
+    v3, d3, cov3, _obs = E3.campaign(pid, ctx, scheds, "c04")
+    seen3 = set()
+    for cls, d, text in v3:
+        if cls not in seen3 and len(res["violations"]) < 4:
+            seen3.add(cls)
+            res["violations"].append(("%s (interleaving engine): %s" % (cls, d), text))
+    cov["evaluations"] += cov3.get("schedules", 0)
+    cov["distinct_nontrivial"] += cov3.get("hot_conflicts", 0) and cov3.get("schedules", 0)
+    cov["e3_hot"] = {k: cov3.get(k) for k in ("schedules", "events", "hot_ok_commits", "hot_conflicts", "traces_validated", "traces_rejected", "committer_threads")}
     cov["samples"] = [" ; ".join(gens[0][2].orc[:12]), " ; ".join(l[3:] for l in gens[-1][2].cs[:14])] + cc.get("samples", [])[:1]
     cov["rule"] = ("A1: random CommitOracle call sequences (%d, of which %d with > 2 x GC_INTERVAL publishes: counts > 1, duplicate keys, moving / stuck / "
                    "regressing watermarks, rollbacks of latest and older stamps, resets), every answer and a bisected observation of kept_since and of "
@@ -677,7 +692,8 @@ def explore(ctx):
                    "with rollback, re-commit after failure, end, restore to arbitrary points, > 2 x GC_INTERVAL commits under old open transactions) "
                    "replayed call by call on the crate's oracle; B: the failure-free histories on a real store through the public API incl. "
                    "create_checkpoint/restore_from_checkpoint; C: E2 programs with many overlapping writers on few keys, write-only transactions and "
-                   "> GC_INTERVAL commits under open readers vs Spec/Machine.v. Non-trivial = a history/program in which at least one commit was refused "
+                   "> GC_INTERVAL commits under open readers vs Spec/Machine.v; D: interleavings of 3-8 committer threads whose transactions all write one key "
+                   "(engine E3, yield points of the commit pipeline): no two overlapping writers both commit. Non-trivial = a history/program in which at least one commit was refused "
                    "with Conflict; distinct by script text" % (n_short + n_long, n_long))
     res["coverage"] = cov
     return res
